@@ -69,9 +69,13 @@ type scenario struct {
 	NOps       int       `json:"nops"`
 	MaxConns   int       `json:"max_conns"`
 	Focus      string    `json:"focus,omitempty"` // frame type this case concentrates on ("" = all)
+	Spares     int       `json:"spares"`              // RPCs held back, started when fewer than MinRunning are running
+	MinRunning int       `json:"min_running"`
+	Retry      bool      `json:"retry_policy,omitempty"` // channel has a retry policy (grpc-retry-pushback-ms is parsed)
+	ValueBase  int       `json:"value_base,omitempty"`   // family "values": start of the deterministic walk over the fixed value shapes
 }
 
-var frameKinds = []string{"DATA", "HEADERS", "CONTINUATION", "RST_STREAM", "SETTINGS", "PING", "GOAWAY", "WINDOW_UPDATE", "PUSH_PROMISE", "PRIORITY", "UNKNOWN", "OVERSIZE"}
+var frameKinds = []string{"VALUES", "DATA", "HEADERS", "CONTINUATION", "RST_STREAM", "SETTINGS", "PING", "GOAWAY", "WINDOW_UPDATE", "PUSH_PROMISE", "PRIORITY", "UNKNOWN", "OVERSIZE"}
 
 func gen(rng *rand.Rand, fam string, i int) scenario {
 	sc := scenario{Fam: fam, Seed: rng.Int63(), AckSet: rng.Intn(5) != 0, AckPing: rng.Intn(5) != 0, MaxConns: 2 + rng.Intn(4)}
@@ -100,7 +104,11 @@ func gen(rng *rand.Rand, fam string, i int) scenario {
 	sc.StartFirst = 1 + rng.Intn(nr)
 	// spare RPCs, started one at a time whenever no RPC is running any more (a
 	// channel without RPCs neither reconnects nor exercises the transport)
-	for k := 0; k < 8; k++ {
+	sc.Spares, sc.MinRunning = 8, 1
+	if fam == "values" {
+		sc.Spares, sc.MinRunning = 40, 2
+	}
+	for k := 0; k < sc.Spares; k++ {
 		sc.RPCs = append(sc.RPCs, rpcSpec{Kind: vlib.Pick(rng, "unary", "sstream", "bidi"), Deadline: time.Duration(1+rng.Intn(8000)) * time.Millisecond, WFR: rng.Intn(3) == 0, Sends: rng.Intn(3), Size: vlib.Pick(rng, 0, 10, 1000, 70000)})
 	}
 	sc.NOps = 8 + rng.Intn(40)
@@ -110,6 +118,14 @@ func gen(rng *rand.Rand, fam string, i int) scenario {
 			h = vlib.Pick(rng, "ok", "hostile-settings", "first-frame-not-settings", "garbage", "close", "silent", "settings-ack-first", "huge-frame", "partial-then-close")
 		}
 		sc.Handshakes = append(sc.Handshakes, h)
+	}
+	if fam == "values" {
+		sc.Focus, sc.ValueBase, sc.Retry = "VALUES", i, i%2 == 1
+		sc.NOps = 25 + rng.Intn(30)
+		sc.MaxHdrList = 0
+		for k := range sc.Handshakes {
+			sc.Handshakes[k] = "ok"
+		}
 	}
 	if fam == "grammar" {
 		// a deterministic rotation guarantees that every frame type is the
@@ -174,6 +190,7 @@ type execState struct {
 	sigs   map[string]bool
 	noDial atomic.Bool
 	dials  atomic.Int64
+	nVal   int // VALUES operations delivered so far
 }
 
 func (x *execState) now() time.Duration { return time.Since(x.t0) }
@@ -260,7 +277,7 @@ func (x *execState) doRPC(ctx context.Context, sp rpcSpec) error {
 		if err != nil {
 			return err
 		}
-		if err := st.SendMsg(payload); err != nil && err != io.EOF {
+		if err := st.SendMsg(payload); err != nil && !errors.Is(err, io.EOF) {
 			return err
 		}
 		st.CloseSend()
@@ -288,8 +305,10 @@ func (x *execState) doRPC(ctx context.Context, sp rpcSpec) error {
 		// not a grpc defect).
 		for k := 0; k < sp.Sends; k++ {
 			if err := st.SendMsg(payload); err != nil {
-				if err == io.EOF {
-					break // the status is delivered by RecvMsg
+				// io.EOF - also when wrapped ("max retries exhausted: ...: EOF" of
+				// the retry code) - means: the status is delivered by RecvMsg
+				if errors.Is(err, io.EOF) {
+					break
 				}
 				return err
 			}
@@ -443,7 +462,9 @@ func (x *execState) accept() {
 }
 
 func (x *execState) quiesce() {
+	progressTick.Add(1)
 	synctest.Wait()
+	progressTick.Add(1)
 	x.feed()
 	x.accept()
 	synctest.Wait()
@@ -700,15 +721,17 @@ func (x *execState) hostileOp() {
 	kind := ""
 	switch x.sc.Fam {
 	case "bytes":
-		kind = vlib.Pick(rng, "BYTES", "BYTES", "BYTES", "COMPLETE", "HEADERS", "DATA", "SETTINGS")
+		kind = vlib.Pick(rng, "BYTES", "BYTES", "BYTES", "COMPLETE", "HEADERS", "VALUES", "DATA", "SETTINGS")
 	default:
 		if x.sc.Focus != "" && rng.Intn(3) != 0 {
 			kind = x.sc.Focus
 		} else {
-			kind = vlib.Pick(rng, "DATA", "DATA", "HEADERS", "HEADERS", "HEADERS", "HEADERS-NOEND", "CONTINUATION", "RST_STREAM", "RST_STREAM", "SETTINGS", "SETTINGS", "PING", "GOAWAY", "WINDOW_UPDATE", "WINDOW_UPDATE", "PUSH_PROMISE", "PRIORITY", "UNKNOWN", "OVERSIZE", "BYTES", "COMPLETE", "COMPLETE", "CONN")
+			kind = vlib.Pick(rng, "VALUES", "VALUES", "VALUES", "DATA", "DATA", "HEADERS", "HEADERS", "HEADERS", "HEADERS-NOEND", "CONTINUATION", "RST_STREAM", "RST_STREAM", "SETTINGS", "SETTINGS", "PING", "GOAWAY", "WINDOW_UPDATE", "WINDOW_UPDATE", "PUSH_PROMISE", "PRIORITY", "UNKNOWN", "OVERSIZE", "BYTES", "COMPLETE", "COMPLETE", "CONN")
 		}
 	}
 	switch kind {
+	case "VALUES":
+		x.valuesOp(c)
 	case "COMPLETE":
 		id, cl := x.pickStream(c, "open")
 		if cl != "open" {
@@ -1050,6 +1073,92 @@ func (x *execState) hostileOp() {
 	}
 }
 
+// valuesOp delivers one adversarial header VALUE (values_test.go) on an open
+// stream, in initial headers, a Trailers-Only response or real trailers.
+func (x *execState) valuesOp(c *sconn) {
+	rng := x.rng
+	id, cl := x.pickStream(c, "open")
+	if cl != "open" {
+		x.count("values_without_open_stream", 1)
+		return
+	}
+	st := c.streams[id]
+	fi, k := rng.Intn(len(valueFields)), -1
+	if x.sc.Fam == "values" && x.nVal < 6 {
+		// deterministic walk: case i, operation j covers (field, shape) number 6i+j
+		g := x.sc.ValueBase*6 + x.nVal
+		fi, k = g%len(valueFields), g/len(valueFields)
+	}
+	x.nVal++
+	name, sh := pickValue(rng, fi, k)
+	field := f(name, sh.value)
+	status := fmt.Sprint(vlib.Pick(rng, 0, 2, 2, 3, 13, 14))
+	if name == "grpc-retry-pushback-ms" {
+		status = "14"
+	}
+	var junk []hf
+	for j := rng.Intn(3); j > 0; j-- {
+		junk = append(junk, junkFields[rng.Intn(len(junkFields))])
+	}
+	head := []hf{f(":status", "200"), f("content-type", "application/grpc")}
+	switch name {
+	case ":status":
+		head[0] = field
+	case "content-type":
+		head[1] = field
+	}
+	inHead := name == ":status" || name == "content-type"
+	// the field under test goes before or after a well-formed grpc-status
+	tail := func() []hf {
+		var fs []hf
+		if name == "grpc-status" {
+			fs = []hf{field}
+		} else if inHead {
+			fs = []hf{f("grpc-status", status)}
+		} else if rng.Intn(2) == 0 {
+			fs = []hf{field, f("grpc-status", status)}
+		} else {
+			fs = []hf{f("grpc-status", status), field}
+		}
+		if name != "grpc-message" && rng.Intn(3) == 0 {
+			_, m := pickValue(rng, 0, -1)
+			fs = append(fs, f("grpc-message", m.value))
+		}
+		return append(fs, junk...)
+	}
+	form := vlib.Pick(rng, "trailers-only", "trailers-only", "trailers", "trailers", "initial-headers")
+	if st.hdrSent {
+		form = "trailers"
+	}
+	switch form {
+	case "trailers-only":
+		x.writeBlock(c, id, true, c.enc.block(append(append([]hf{}, head...), tail()...)...), 0)
+	case "trailers":
+		if !st.hdrSent {
+			x.writeBlock(c, id, false, c.enc.block(goodHeaders...), 0)
+			if rng.Intn(2) == 0 {
+				c.peer.WriteData(id, wire.Msg(randBytes(rng, rng.Intn(50))), false, -1)
+			}
+		}
+		fs := tail()
+		if inHead {
+			// :status / content-type repeated in the trailers
+			fs = append([]hf{field}, fs...)
+			if name == "content-type" {
+				fs = append(fs[1:], field)
+			}
+		}
+		x.writeBlock(c, id, true, c.enc.block(fs...), 0)
+	default:
+		fs := append([]hf{}, head...)
+		if !inHead {
+			fs = append(fs, field)
+		}
+		x.writeBlock(c, id, false, c.enc.block(append(fs, junk...)...), 0)
+	}
+	x.sig(c, "VALUES", form, name+":"+sh.class)
+}
+
 func gaClass(c *sconn) string {
 	if c.goaways == 0 {
 		return "first"
@@ -1077,6 +1186,9 @@ func run(sc scenario, res *caseResult) {
 	if sc.Keepalive {
 		dopts = append(dopts, grpc.WithKeepaliveParams(keepalive.ClientParameters{Time: 10 * time.Second, Timeout: 2 * time.Second, PermitWithoutStream: true}))
 	}
+	if sc.Retry {
+		dopts = append(dopts, grpc.WithDefaultServiceConfig(`{"methodConfig":[{"name":[{}],"retryPolicy":{"maxAttempts":3,"initialBackoff":"0.01s","maxBackoff":"0.1s","backoffMultiplier":2,"retryableStatusCodes":["UNAVAILABLE","INTERNAL"]}}]}`))
+	}
 	fx, err := wire.NewClientFixture(dopts...)
 	if err != nil {
 		x.v("harness", "fixture: %v", err)
@@ -1099,7 +1211,7 @@ func run(sc scenario, res *caseResult) {
 	}
 	x.quiesce()
 	for k := 0; k < sc.NOps; k++ {
-		if x.running() == 0 && x.next < len(x.rpcs) {
+		if x.running() < sc.MinRunning && x.next < len(x.rpcs) {
 			x.tr("no RPC running: start rpc %d", x.next)
 			x.count("rpcs_replenished", 1)
 			x.startRPC(x.next)
@@ -1130,7 +1242,7 @@ func run(sc scenario, res *caseResult) {
 		}
 		x.quiesce()
 	}
-	for x.next < len(x.rpcs)-8 {
+	for x.next < len(x.rpcs)-sc.Spares {
 		x.startRPC(x.next)
 		x.next++
 	}
@@ -1149,6 +1261,13 @@ func run(sc scenario, res *caseResult) {
 	x.mu.Lock()
 	for i, r := range x.rpcs {
 		if r.started && r.finished == 0 && !r.spec.WFR {
+			if sc.Retry {
+				// with a retry policy the RPC may legitimately sit in its retry
+				// back-off or the server's push-back timer: judged by the deadline
+				// oracles only
+				x.res.Counters["outlive_checks_skipped_retry_backoff"]++
+				continue
+			}
 			x.v("rpc-outlives-its-connection", "rpc %d (%s, fail-fast, timeout %v) has not returned although the server closed every connection and no new connection can be established (quiescent at %v)", i, r.spec.Kind, r.spec.Deadline, x.now())
 		}
 	}
@@ -1271,6 +1390,48 @@ func (x *execState) judgeFinal(report bool) int {
 	return stuck
 }
 
+// classifyStall judges a bubble that can never make progress again (every
+// goroutine blocked, at least one on a sync.Mutex).  One pattern is a violation
+// of the statement: the goroutine that must end the RPC when its context is done
+// (deadline / cancellation / ClientConn.Close) waits for clientStream.mu, which
+// the RPC goroutine holds while it replays buffered operations of a retry and is
+// itself blocked - the RPC cannot terminate at its deadline.
+func classifyStall(gs []gblock) (key, msg string) {
+	watcher := false
+	for _, g := range gs {
+		if !strings.HasPrefix(g.state, "sync.Mutex.Lock") {
+			continue
+		}
+		fin, ws := false, false
+		for _, fn := range g.funcs {
+			if strings.HasSuffix(fn, "grpc.(*clientStream).finish") {
+				fin = true
+			}
+			if strings.Contains(fn, "grpc.newClientStreamWithParams.func") {
+				ws = true
+			}
+		}
+		watcher = watcher || (fin && ws)
+	}
+	if !watcher {
+		return "", ""
+	}
+	for _, g := range gs {
+		replay := false
+		for _, fn := range g.funcs {
+			if strings.HasSuffix(fn, "grpc.(*clientStream).retryLocked") {
+				replay = true
+			}
+		}
+		if replay {
+			top := firstGrpcFunc(g)
+			return "rpc-cannot-end-at-deadline-during-retry-replay:" + top,
+				"the goroutine that ends the RPC when its context is done is blocked on clientStream.mu in clientStream.finish, while the RPC goroutine holds that mutex in retryLocked/replayBufferLocked and is itself blocked in " + top + ": the RPC does not terminate at its deadline (only a later event from the server can end it)"
+		}
+	}
+	return "", ""
+}
+
 // ---------------------------------------------------------------- driver glue
 
 func light() int {
@@ -1283,6 +1444,7 @@ func light() int {
 func runCase(t *testing.T, r *vlib.Run, c caseID) *caseResult {
 	sc := gen(r.Rand(c.Fam, c.I), c.Fam, c.I)
 	res := &caseResult{Fam: c.Fam, I: c.I, Counters: map[string]int64{}}
+	currentRes.Store(res)
 	res.Desc = fmt.Sprintf("focus=%s rpcs=%d nops=%d conns=%d handshakes=%v", sc.Focus, len(sc.RPCs), sc.NOps, sc.MaxConns, sc.Handshakes)
 	r.Progress(c.Fam, c.I, res.Desc)
 	synctest.Test(t, func(t *testing.T) { run(sc, res) })
@@ -1295,6 +1457,7 @@ func TestWorkerC11(t *testing.T) {
 		t.Skip("child-process entry point of TestVerifC11")
 	}
 	r := vlib.Start(t, "C11")
+	stallClassifier = classifyStall
 	childMain(func(c caseID) *caseResult { return runCase(t, r, c) })
 }
 
@@ -1307,6 +1470,7 @@ func TestVerifC11(t *testing.T) {
 		{"grammar", r.N(520, 5200) / light()},
 		{"bytes", r.N(180, 1800) / light()},
 		{"handshake", r.N(60, 600) / light()},
+		{"values", r.N(160, 1600) / light()},
 	}
 	var cases []caseID
 	for _, fm := range fams {
@@ -1320,11 +1484,11 @@ func TestVerifC11(t *testing.T) {
 	report(r, cases, out, func(c caseID) any { return gen(r.Rand(c.Fam, c.I), c.Fam, c.I) })
 	r.Finish(vlib.Spec{
 		Level: "fault_enumeration",
-		Rule: "1-6 concurrent RPCs (unary / server-streaming / bidi, deadlines 1 ms..10 s virtual or none, fail-fast or wait-for-ready) on a real ClientConn against a scripted HTTP/2 server over up to 5 successive connections (normal or hostile handshakes); 8-47 operations per case drawn from a frame grammar (DATA/HEADERS/CONTINUATION/RST_STREAM/SETTINGS/PING/GOAWAY/WINDOW_UPDATE/PUSH_PROMISE/PRIORITY/unknown/oversize frames on open|closed|idle|even|zero|huge stream ids, 38 header-field classes, frames without END_HEADERS followed by other frames, floods, connection close/reset) and, family 'bytes', bit-flipped/truncated/spliced/garbage bytes derived from valid frame bytes; family 'handshake' plays hostile connection prefaces; " +
+		Rule: "1-6 concurrent RPCs (unary / server-streaming / bidi, deadlines 1 ms..10 s virtual or none, fail-fast or wait-for-ready) on a real ClientConn against a scripted HTTP/2 server over up to 5 successive connections (normal or hostile handshakes); 8-47 operations per case drawn from a frame grammar (DATA/HEADERS/CONTINUATION/RST_STREAM/SETTINGS/PING/GOAWAY/WINDOW_UPDATE/PUSH_PROMISE/PRIORITY/unknown/oversize frames on open|closed|idle|even|zero|huge stream ids, 38 header-field classes, frames without END_HEADERS followed by other frames, floods, connection close/reset) and, family 'bytes', bit-flipped/truncated/spliced/garbage bytes derived from valid frame bytes; family 'handshake' plays hostile connection prefaces; family 'values' (and the VALUES operation of the other families) delivers adversarial VALUES of the fields the client parses - grpc-message percent-escape shapes (complete escapes followed by a trailing '%' / '%X', invalid hex, '%%', invalid UTF-8, very long), grpc-status, grpc-status-details-bin, grpc-encoding, content-type, :status, grpc-retry-pushback-ms (with a retry policy), -bin metadata and junk fields - in initial headers, Trailers-Only responses and real trailers, walking every fixed shape deterministically; " +
 			"non-trivial = a (frame type, stream state, field class) triple sent while the connection was alive; distinct = number of different triples",
 		Assumptions: []string{
 			"every case runs in a child process; a dead child (panic, fatal error, synctest 'blocked goroutines remain') is attributed to the case whose start was logged last",
-			"an RPC 'outlives its connection' only when the server has closed every connection and dials are refused, and only fail-fast RPCs are judged there (wait-for-ready RPCs legitimately wait until their deadline)",
+			"an RPC 'outlives its connection' only when the server has closed every connection and dials are refused, and only fail-fast RPCs on channels without a retry policy are judged there (wait-for-ready RPCs legitimately wait until their deadline, retried RPCs sit in back-off / push-back timers)",
 			"virtual time: an RPC returning at the instant of its deadline is on time",
 		},
 		Floor: 150 / light(),
@@ -1340,6 +1504,12 @@ func report(r *vlib.Run, cases []caseID, out *isoOutcome, scenarioOf func(caseID
 			continue
 		}
 		r.Eval(1)
+		if res.Stall != "" {
+			r.Count("virtual_clock_stalls", 1)
+			if len(res.Viol) == 0 {
+				r.Inconclusive("case %s/%d: %s", c.Fam, c.I, res.Stall)
+			}
+		}
 		for _, v := range res.Viol {
 			r.Violation(v[0], c.Fam, c.I, map[string]any{"scenario": scenarioOf(c), "trace": res.Trace}, "%s", v[1])
 		}
